@@ -291,6 +291,38 @@ Definition font_ok (f : font) : Prop :=
   0 <= d_off (f_ul f) <= half /\ 0 <= d_h (f_ul f) <= half /\
   0 <= d_off (f_st f) <= half /\ 0 <= d_h (f_st f) <= half.
 
+(* The glyph index: MonoFont::glyph (mod.rs:109-114) converts `index(c)` with `as u32` and computes
+   row * character_size.height in u32, then casts to i32.  The model's glyph_area is unbounded; the two agree
+   when the index fits u32 and the cell's bottom edge stays below 2^31 (nothing is asked when glyph() takes
+   its early exit and never calls index()). *)
+Definition glyph_index_ok (f : font) (gi : Z) : Prop :=
+  f_cw f = 0 \/ f_iw f < f_cw f \/
+  (0 <= gi < 4294967296 /\ (gi / (f_iw f / f_cw f) + 1) * f_ch f < 2147483648).
+Definition index_ok (F : mfont) (text : list Z) : Prop :=
+  forall c, In c text -> glyph_index_ok (mf_geom F) (mf_index F c).
+
+Lemma index_ok_app F l1 l2 : index_ok F (l1 ++ l2) <-> index_ok F l1 /\ index_ok F l2.
+Proof.
+  unfold index_ok. split.
+  - intros H. split; intros c Hc; apply H, in_or_app; [left|right]; exact Hc.
+  - intros [H1 H2] c Hc. apply in_app_or in Hc. destruct Hc; [apply H1|apply H2]; assumption.
+Qed.
+
+Lemma index_ok_incl F l1 l2 : incl l1 l2 -> index_ok F l2 -> index_ok F l1.
+Proof. unfold index_ok. intros Hi H c Hc. apply H, Hi, Hc. Qed.
+
+(* a small index is always fine: (gi + 1) * ch < 2^31 *)
+Lemma glyph_index_small_ok f gi :
+  0 <= f_cw f -> 0 <= gi < 4294967296 -> 0 <= f_ch f -> (gi + 1) * f_ch f < 2147483648 -> glyph_index_ok f gi.
+Proof.
+  intros Hcw H0 Hch H. unfold glyph_index_ok.
+  destruct (Z.eq_dec (f_cw f) 0) as [E|E]; [left; exact E|].
+  destruct (Z_lt_dec (f_iw f) (f_cw f)) as [L|L]; [right; left; exact L|].
+  right. right. split; [lia|].
+  assert (0 < f_iw f / f_cw f) by (apply Z.div_str_pos; lia).
+  assert (gi / (f_iw f / f_cw f) <= gi) by (apply Z.div_le_upper_bound; nia). nia.
+Qed.
+
 (* a line of n characters starting at pos *)
 Definition line_ok (f : font) (pos : point) (n : nat) : Prop :=
   - half <= px pos /\ px pos + Z.of_nat n * (f_cw f + f_sp f) <= half /\ - bound <= py pos <= half.
@@ -650,12 +682,12 @@ Qed.
 
 (* the pixel map of MonoTextStyle::draw_string *)
 Theorem render_draw_string F s text pos b p :
-  font_ok (mf_geom F) -> draw_ok (mf_geom F) pos (length text) ->
+  font_ok (mf_geom F) -> draw_ok (mf_geom F) pos (length text) -> index_ok F text ->
   render (fst (draw_string F s text pos b)) p =
   let o := origin (mf_geom F) pos b in
   orelse (deco_pixel (mf_geom F) s o (advance (mf_geom F) s (length text)) p) (line_pixel F s o text p).
 Proof.
-  intros Hf Hd. set (f := mf_geom F) in *. cbn zeta.
+  intros Hf Hd _. set (f := mf_geom F) in *. cbn zeta.
   pose proof (baseline_offset_range f b Hf) as Hbo.
   assert (Hcw : 0 <= f_cw f) by (red in Hf; tauto).
   assert (Hsp : 0 <= f_sp f) by (red in Hf; tauto).
@@ -739,37 +771,37 @@ Proof. unfold sub_image_visible, is_zero_sized. intros. lia. Qed.
 
 (* ====================================================================== closed forms at draw_string level *)
 Lemma draw_string_cell F s text pos b i c dx dy :
-  font_ok (mf_geom F) -> draw_ok (mf_geom F) pos (length text) ->
+  font_ok (mf_geom F) -> draw_ok (mf_geom F) pos (length text) -> index_ok F text ->
   nth_error text i = Some c -> 0 <= dx < f_cw (mf_geom F) -> 0 <= dy < f_ch (mf_geom F) ->
   let f := mf_geom F in
   let p := P (px pos + Z.of_nat i * (f_cw f + f_sp f) + dx) (py pos - baseline_offset f b + dy) in
   render (fst (draw_string F s text pos b)) p =
   orelse (deco_pixel f s (origin f pos b) (advance f s (length text)) p) (cell_colour F s c dx dy).
 Proof.
-  intros Hf Hd Hn Hdx Hdy. cbn zeta. rewrite render_draw_string by assumption. cbn zeta. f_equal.
+  intros Hf Hd Hi Hn Hdx Hdy. cbn zeta. rewrite render_draw_string by assumption. cbn zeta. f_equal.
   apply (line_pixel_cell F s text (origin (mf_geom F) pos b)); auto; red in Hf; tauto.
 Qed.
 
 Lemma draw_string_spacing F s text pos b i dx dy :
-  font_ok (mf_geom F) -> draw_ok (mf_geom F) pos (length text) ->
+  font_ok (mf_geom F) -> draw_ok (mf_geom F) pos (length text) -> index_ok F text ->
   (Datatypes.S i < length text)%nat -> 0 <= dx < f_sp (mf_geom F) -> 0 <= dy < f_ch (mf_geom F) ->
   let f := mf_geom F in
   let p := P (px pos + Z.of_nat i * (f_cw f + f_sp f) + f_cw f + dx) (py pos - baseline_offset f b + dy) in
   render (fst (draw_string F s text pos b)) p =
   orelse (deco_pixel f s (origin f pos b) (advance f s (length text)) p) (cs_bg s).
 Proof.
-  intros Hf Hd Hn Hdx Hdy. cbn zeta. rewrite render_draw_string by assumption. cbn zeta. f_equal.
+  intros Hf Hd Hi Hn Hdx Hdy. cbn zeta. rewrite render_draw_string by assumption. cbn zeta. f_equal.
   apply (line_pixel_spacing F s text (origin (mf_geom F) pos b)); auto; red in Hf; tauto.
 Qed.
 
 Lemma draw_string_elsewhere F s text pos b p :
-  font_ok (mf_geom F) -> draw_ok (mf_geom F) pos (length text) ->
+  font_ok (mf_geom F) -> draw_ok (mf_geom F) pos (length text) -> index_ok F text ->
   let f := mf_geom F in
   contains (R (origin f pos b) (S (line_width f (length text)) (f_ch f))) p = false ->
   render (fst (draw_string F s text pos b)) p =
   deco_pixel f s (origin f pos b) (advance f s (length text)) p.
 Proof.
-  intros Hf Hd f H. rewrite render_draw_string by assumption. cbn zeta.
+  intros Hf Hd Hi f H. rewrite render_draw_string by assumption. cbn zeta.
   rewrite line_pixel_outside; auto; try (red in Hf; tauto).
   destruct (deco_pixel _ _ _ _ _); reflexivity.
 Qed.
@@ -778,7 +810,7 @@ Lemma deco_pixel_plain f s o w p : cs_ul s = DNone -> cs_st s = DNone -> deco_pi
 Proof. intros H1 H2. unfold deco_pixel. rewrite H1, H2. cbn. destruct (0 <? w); reflexivity. Qed.
 
 Lemma draw_string_cell_plain F s text pos b i c dx dy :
-  font_ok (mf_geom F) -> draw_ok (mf_geom F) pos (length text) ->
+  font_ok (mf_geom F) -> draw_ok (mf_geom F) pos (length text) -> index_ok F text ->
   cs_ul s = DNone -> cs_st s = DNone ->
   nth_error text i = Some c -> 0 <= dx < f_cw (mf_geom F) -> 0 <= dy < f_ch (mf_geom F) ->
   let f := mf_geom F in
@@ -786,13 +818,13 @@ Lemma draw_string_cell_plain F s text pos b i c dx dy :
     (P (px pos + Z.of_nat i * (f_cw f + f_sp f) + dx) (py pos - baseline_offset f b + dy)) =
   cell_colour F s c dx dy.
 Proof.
-  intros Hf Hd H1 H2 Hn Hdx Hdy. cbn zeta.
-  pose proof (draw_string_cell F s text pos b i c dx dy Hf Hd Hn Hdx Hdy) as E. cbn zeta in E. rewrite E.
+  intros Hf Hd Hi H1 H2 Hn Hdx Hdy. cbn zeta.
+  pose proof (draw_string_cell F s text pos b i c dx dy Hf Hd Hi Hn Hdx Hdy) as E. cbn zeta in E. rewrite E.
   rewrite deco_pixel_plain by assumption. reflexivity.
 Qed.
 
 Lemma underline_covers F s text pos b p col :
-  font_ok (mf_geom F) -> draw_ok (mf_geom F) pos (length text) ->
+  font_ok (mf_geom F) -> draw_ok (mf_geom F) pos (length text) -> index_ok F text ->
   let f := mf_geom F in
   let next := snd (draw_string F s text pos b) in
   effective_color (cs_ul s) (cs_text s) = Some col ->
@@ -800,7 +832,7 @@ Lemma underline_covers F s text pos b p col :
   py pos - baseline_offset f b + d_off (f_ul f) <= py p < py pos - baseline_offset f b + d_off (f_ul f) + d_h (f_ul f) ->
   render (fst (draw_string F s text pos b)) p = Some col.
 Proof.
-  intros Hf Hd f next Hc Hx Hy. subst next. rewrite draw_string_next in Hx. cbn [px] in Hx.
+  intros Hf Hd Hi f next Hc Hx Hy. subst next. rewrite draw_string_next in Hx. cbn [px] in Hx.
   rewrite render_draw_string by assumption. cbn zeta. fold f in Hx |- *.
   unfold deco_pixel. replace (0 <? advance f s (length text)) with true by lia.
   rewrite Hc. unfold deco_part at 1.
@@ -809,7 +841,7 @@ Proof.
 Qed.
 
 Lemma strikethrough_covers F s text pos b p col :
-  font_ok (mf_geom F) -> draw_ok (mf_geom F) pos (length text) ->
+  font_ok (mf_geom F) -> draw_ok (mf_geom F) pos (length text) -> index_ok F text ->
   let f := mf_geom F in
   let next := snd (draw_string F s text pos b) in
   effective_color (cs_st s) (cs_text s) = Some col ->
@@ -818,11 +850,43 @@ Lemma strikethrough_covers F s text pos b p col :
   deco_part (f_ul f) (effective_color (cs_ul s) (cs_text s)) (origin f pos b) (px next - px pos) p = None ->
   render (fst (draw_string F s text pos b)) p = Some col.
 Proof.
-  intros Hf Hd f next Hc Hx Hy Hu. subst next. rewrite draw_string_next in Hx, Hu. cbn [px] in Hx, Hu.
+  intros Hf Hd Hi f next Hc Hx Hy Hu. subst next. rewrite draw_string_next in Hx, Hu. cbn [px] in Hx, Hu.
   rewrite render_draw_string by assumption. cbn zeta. fold f in Hx, Hu |- *.
   replace (px pos + advance f s (length text) - px pos) with (advance f s (length text)) in Hu by lia.
   unfold deco_pixel. replace (0 <? advance f s (length text)) with true by lia.
   rewrite Hu. cbn [orelse]. rewrite Hc. unfold deco_part.
   rewrite (proj2 (contains_spec _ _)) by (unfold deco_box, origin; cbn [tl sz px py sw sh]; lia).
   reflexivity.
+Qed.
+
+(* ====================================================================== distinct indices, distinct cells *)
+Lemma glyph_area_injective f i j :
+  font_wf f -> 0 <= i -> 0 <= j -> glyph_area f i = glyph_area f j -> i = j.
+Proof.
+  intros (Hok & Hcw & Hch & _) Hi Hj E.
+  rewrite !glyph_area_cell in E by lia. cbn zeta in E.
+  injection E as E1 E2.
+  assert (0 < f_iw f / f_cw f) by (apply Z.div_str_pos; lia).
+  assert (i mod (f_iw f / f_cw f) = j mod (f_iw f / f_cw f)) by nia.
+  assert (i / (f_iw f / f_cw f) = j / (f_iw f / f_cw f)) by nia.
+  rewrite (Z.div_mod i (f_iw f / f_cw f)), (Z.div_mod j (f_iw f / f_cw f)) by lia. congruence.
+Qed.
+
+(* stronger: the cells of two different indices have no pixel in common *)
+Lemma glyph_areas_disjoint f i j p :
+  font_wf f -> 0 <= i -> 0 <= j -> i <> j ->
+  contains (glyph_area f i) p && contains (glyph_area f j) p = false.
+Proof.
+  intros (Hok & Hcw & Hch & _) Hi Hj Hne.
+  destruct (contains (glyph_area f i) p) eqn:E1; [|reflexivity].
+  destruct (contains (glyph_area f j) p) eqn:E2; [|reflexivity]. exfalso.
+  rewrite glyph_area_cell in E1, E2 by lia. cbn zeta in E1, E2.
+  apply contains_spec in E1, E2. cbn [tl sz px py sw sh] in E1, E2.
+  assert (Hg : 0 < f_iw f / f_cw f) by (apply Z.div_str_pos; lia).
+  set (g := f_iw f / f_cw f) in *.
+  pose proof (Z.mod_pos_bound i g Hg). pose proof (Z.mod_pos_bound j g Hg).
+  assert (i mod g = j mod g) by nia.
+  assert (0 <= i / g) by (apply Z.div_pos; lia). assert (0 <= j / g) by (apply Z.div_pos; lia).
+  assert (i / g = j / g) by nia.
+  apply Hne. rewrite (Z.div_mod i g), (Z.div_mod j g) by lia. congruence.
 Qed.
